@@ -351,6 +351,23 @@ func doCall(m *minify.M, c Call) (res result) {
 	return res
 }
 
+// doCallDL runs a sequential call under the deadline: a call that never returns (e.g. blocks on a lock it
+// holds itself) must not hang the driver.  ok=false: the deadline expired (the goroutine is abandoned).
+func doCallDL(m *minify.M, c Call) (res result, ok bool) {
+	ch := make(chan result, 1)
+	go func() { ch <- doCall(m, c) }()
+	select {
+	case res = <-ch:
+		return res, true
+	case <-time.After(deadline):
+		return result{}, false
+	}
+}
+
+func blockedSeq(sc *Scenario, i int, c Call) {
+	emit(Line{Ev: "blocked", Sc: sc.ID, G: 0, K: i + 1, Key: keyOf(sc, c), Note: "sequential call did not return within the deadline (nothing else was running)"})
+}
+
 func keyOf(sc *Scenario, c Call) string {
 	if sc.Kind == "cmdin" || sc.Kind == "htmldep" {
 		return sc.Kind + ":" + strings.Join(sc.Args, " ") + ":" + c.E + "|" + c.MT + "|" + c.Doc
@@ -396,7 +413,11 @@ func runBase(sc *Scenario) {
 	for i, c := range sc.Calls {
 		r := newReg(sc.Optset) // fresh registry and fresh option structs for every reference call
 		before := r.snapshot()
-		res := doCall(r.m, c)
+		res, ok := doCallDL(r.m, c)
+		if !ok {
+			blockedSeq(sc, i, c)
+			break
+		}
 		after := r.snapshot()
 		emit(Line{Ev: "base", Sc: sc.ID, G: 0, K: i + 1, Key: keyOf(sc, c), H: res.h, Err: res.err, O1: before, O2: after, Note: res.o1})
 	}
@@ -407,11 +428,19 @@ func runSeq(sc *Scenario) {
 	emit(Line{Ev: "begin", Sc: sc.ID, Note: sc.Kind})
 	r := newReg(sc.Optset)
 	before := r.snapshot()
+	after := before
 	for i, c := range sc.Calls {
-		res := doCall(r.m, c)
+		res, ok := doCallDL(r.m, c)
+		if !ok {
+			blockedSeq(sc, i, c)
+			break
+		}
 		emit(Line{Ev: "ret", Sc: sc.ID, G: 0, K: i + 1, Key: keyOf(sc, c), H: res.h, Err: res.err, Note: res.o1})
 	}
-	endLine(sc, before, r.snapshot(), "")
+	if !poisoned {
+		after = r.snapshot()
+	}
+	endLine(sc, before, after, "")
 }
 
 func runSched(sc *Scenario) {
@@ -503,9 +532,13 @@ func runSched(sc *Scenario) {
 	fin := make(chan struct{})
 	go func() { wg.Wait(); close(fin) }()
 	note := ""
+	drain := deadline
+	if aborted && drain > 5*time.Second {
+		drain = 5 * time.Second // every gate is open and every call started: correct code is done in milliseconds
+	}
 	select {
 	case <-fin:
-	case <-time.After(deadline):
+	case <-time.After(drain):
 		note = "goroutines still running after the scenario (leaked)"
 		if !aborted {
 			emit(Line{Ev: "blocked", Sc: sc.ID, Note: note})
@@ -588,10 +621,14 @@ func runStress(sc *Scenario) {
 		}
 	}
 	for i, c := range sc.Parked {
+		drain := deadline
+		if !ok && drain > 5*time.Second {
+			drain = 5 * time.Second
+		}
 		select {
 		case res := <-pres[i]:
 			emit(Line{Ev: "ret", Sc: sc.ID, G: -(i + 1), K: 1, Key: keyOf(sc, c), H: res.h, Err: res.err, Note: res.o1})
-		case <-time.After(deadline):
+		case <-time.After(drain):
 			if ok {
 				emit(Line{Ev: "blocked", Sc: sc.ID, G: -(i + 1), K: 1, Key: keyOf(sc, c), Note: "released reader did not return"})
 			}
@@ -666,7 +703,11 @@ func runShape(sc *Scenario) {
 		m2.AddFuncRegexp(reCmd, wrapRec("cmd", cmd2Fn))
 		m2.AddFuncRegexp(reUpper, wrapRec("upper", upperFn))
 		recRoot, recStack = nil, nil
-		res := doCall(m2, Call{E: "Bytes", MT: c.MT, Doc: c.Doc})
+		res, ok := doCallDL(m2, Call{E: "Bytes", MT: c.MT, Doc: c.Doc})
+		if !ok {
+			blockedSeq(sc, i, c)
+			break
+		}
 		tree := []any{"none", false, []any{}}
 		if recRoot != nil {
 			tree = recRoot.tree()
